@@ -167,8 +167,8 @@ class Oracle:
         self.sys_open = False
         self.if_open = False
         self.slots = {}
-        self.last_fail = None
-        self.last_fail_tag = None
+        self.fails = {}          # thread -> (code, tag) of its most recent failing call
+        self.thread = 1
         self.img = {"sys": bytearray(self.spec["sys"].init_image), "if": bytearray(self.spec["if"].init_image)}
         for i, op in enumerate(ops):
             if i >= len(results):
@@ -183,6 +183,8 @@ class Oracle:
 
     def crash(self, op, res):
         t = op.split()
+        if t[0].startswith("t2:"):
+            t[0] = t[0][3:]
         sig = {"oracle": "never_crash", "outcome": res}
         if t[0].startswith("np:"):
             sig["null_parameter"] = t[0][3:]
@@ -203,6 +205,10 @@ class Oracle:
     def step(self, op, res):
         self.cur_op = op
         t = op.split()
+        self.thread = 1
+        if t[0].startswith("t2:"):       # the call is made on the child's second thread
+            self.thread = 2
+            t[0] = t[0][3:]
         np = None
         if t[0].startswith("np:"):
             np = t[0][3:]
@@ -296,16 +302,25 @@ class Oracle:
         getattr(self, "op_" + k)(op, t, code, f, kind)
         self.fail(code)
 
+    @property
+    def last_fail(self):
+        return self.fails.get(self.thread, (None, None))[0]
+
+    @property
+    def last_fail_tag(self):
+        return self.fails.get(self.thread, (None, None))[1]
+
     def fail(self, code):
-        if code != 0:
-            self.last_fail = code
-            # the INVALID_ID message embeds the id that was passed
-            t = self.cur_t
-            self.last_fail_tag = None
+        t = self.cur_t
+        # GCGetLastError does not store its own failure (it would replace the error it reports);
+        # every other failing call is stored in the CALLING THREAD's slot
+        if code != 0 and t[0] != "lasterr":
+            tag = None          # the INVALID_ID message embeds the id that was passed
             if code == BAD_ID and t[0] in ("tlopenif", "tlifinfo"):
-                self.last_fail_tag = t[2]
+                tag = t[2]
             if code == BAD_ID and t[0] in ("ifdevinfo", "ifopendev"):
-                self.last_fail_tag = "dev-" + t[2]
+                tag = "dev-" + t[2]
+            self.fails[self.thread] = (code, tag)
 
     def untouched(self, op, k, t, f):
         """a call refused before its body ran must not have written any out-parameter"""
